@@ -58,7 +58,7 @@ def run_tlc(module: str, cfg: str, *, workers: int = 16, timeout: int = 600,
             expect_violation: bool = False) -> TLCResult:
     """module: 'LRUCache' (file spec/LRUCache.tla); cfg: 'cfg/LRUCache_exh.cfg' relative to spec/."""
     meta = scratch_dir(module)
-    cmd = ["java", "-XX:+UseParallelGC", "-Xmx8g"]
+    cmd = ["java", "-XX:+UseParallelGC", "-Xmx8g"] + (["-XX:ParallelGCThreads=2"] if workers <= 2 else [])
     cmd += java_opts or []
     cmd += ["-cp", JAR, "tlc2.TLC", "-metadir", meta, "-noGenerateSpecTE",
             "-workers", str(workers), "-config", cfg]
@@ -131,3 +131,30 @@ def require_covered(r: TLCResult, actions: list) -> None:
     missing = [a for a in actions if r.coverage.get(a, (0, 0))[1] == 0]
     if missing:
         raise MachineryError("actions never taken in bounded model (vacuous): " + ", ".join(missing))
+
+
+def gen_cfg(template: str, subst: dict, tag: str) -> str:
+    """Instantiate spec/cfg/<template> with literal constants; returns the cfg path relative to spec/."""
+    txt = open(os.path.join(SPEC, template)).read()
+    for k, v in subst.items():
+        txt = txt.replace("@" + k + "@", str(v))
+    if "@" in txt:
+        raise MachineryError("unsubstituted parameter in " + template)
+    rel = os.path.join(os.path.dirname(template), f".gen_{os.getpid()}_{tag}.cfg")
+    with open(os.path.join(SPEC, rel), "w") as f:
+        f.write(txt)
+    return rel
+
+
+def run_many(jobs: list, parallel: int = 8) -> list:
+    """jobs: list of (module, cfg, kwargs). Runs them concurrently (each its own JVM)."""
+    from concurrent.futures import ThreadPoolExecutor
+    with ThreadPoolExecutor(max_workers=parallel) as ex:
+        futs = [ex.submit(run_tlc, m, c, **kw) for m, c, kw in jobs]
+        return [f.result() for f in futs]
+
+
+def cleanup_gen() -> None:
+    import glob
+    for p in glob.glob(os.path.join(SPEC, "cfg", f".gen_{os.getpid()}_*")):
+        os.unlink(p)
